@@ -12,11 +12,11 @@ def main(ctx):
         ctx.violation("build of harness/driver failed (cannot tie the model to /repo)", "build failure\n", found_input=False)
         ctx.finish()
     thr = hybrid_threshold()
-    runs = [("encoders", 5000 if ctx.thorough else 700, "", "rand")]
-    runs.append(("encoders", 0, "--exhaustive %d" % (3 if ctx.thorough else 2), "exh"))
+    runs = [("encoders", 40000 if ctx.thorough else 4000, "", "rand")]
+    runs.append(("encoders", 0, "--exhaustive %d" % 3, "exh"))
     known = ctx.load_known()
     stats = {"cases": 0, "by_encoder": {}, "recipes": {}, "judged": 0, "skipped_large": 0, "clauses": 0,
-             "hybrid_aux_branch": 0, "a2e_models": 0, "exhaustive_upto": 3 if ctx.thorough else 2}
+             "hybrid_aux_branch": 0, "a2e_models": 0, "exhaustive_upto": 3}
     distinct = set()
     samples = []
     corr = None
@@ -82,7 +82,8 @@ def main(ctx):
                 if de is not None:
                     corr = corr or (c, "event %d: impl `%s` model `%s`" % de)
                     continue
-                do = first_diff(c.outs, m.outs)
+                canon = lambda ls: ['panic' if x.startswith('panic') else x for x in ls]
+                do = first_diff(canon(c.outs), canon(m.outs))
                 if do is not None:
                     corr = corr or (c, "output %d: impl `%s` model `%s`" % do)
     if corr and not ctx.violations:
